@@ -248,7 +248,8 @@ PROPS["C07"]["thorough_engines"] = [_hist("supervisor", sc, "C07", w) for sc, w 
 PROPS["C06"]["thorough_engines"] = [_hist("supervisor", "try_graceful_restart_once", "C06", "a graceful try-restart past its deadline starts the replacement exactly once")]
 PROPS["C03"]["thorough_engines"] = [_hist("ignorefiles", sc, "C03", w) for sc, w in [
     ("prefix_sibling_negation", "a negation in test/.gitignore does not leak into tests/"),
-    ("prefix_sibling_shadow", "a hit in test/.gitignore does not shadow the root file for tests/")]] + [
+    ("prefix_sibling_shadow", "a hit in test/.gitignore does not shadow the root file for tests/"),
+    ("same_directory_files_keep_their_listed_order", "two files applying in one directory (a large `*.log` file listed first, a small `!keep.log` file second) are evaluated in their listed order on each of 400 constructions from identical inputs (D17)")]] + [
     replay_engine("ignorefiles", "ignore_rule_bounded", "C03.bounded.verdict_is_the_nearest_file_first_evaluation",
     "the real IgnoreFilter on 320 ignore-file configurations (origin, test/, test/sub/, tests/, tests/sub/; negations, rooted, dir-only, **/ and a/b patterns) x 3 constructions (new, new with the files listed deepest first, empty + add_file) x ~53 probes, plus 196 two-path events per configuration (114032 verdicts): match_path, check_dir and IgnoreFilterer::check_event (single paths, and two paths folded left to right) equal an independent nearest-file-first evaluation with the ignore crate's matcher per file")]
 PROPS["C13"]["thorough_engines"] = [_hist("lib", sc, "C13", w) for sc, w in [
